@@ -351,7 +351,14 @@ pub(crate) fn compute_contract_weights(
                     return Err(ContractError::Unauthorized);
                 }
                 Ok((earliest_epoch_id, weight)) => {
-                    // some weight was recorded for the contract in the past, start from there
+                    // some weight was recorded for the contract, start from there. If the first
+                    // weight ever recorded is for an epoch after start_from_epoch, it is relevant
+                    // for that epoch, so it belongs in the hashmap
+                    if earliest_epoch_id > *start_from_epoch
+                        && earliest_epoch_id <= *current_epoch_id
+                    {
+                        contract_weights.insert(earliest_epoch_id, weight);
+                    }
                     (earliest_epoch_id, weight)
                 }
             }
